@@ -5,7 +5,7 @@ PROPERTY Variant
 CONSTANTS
   Mode = "cursor"
   MaxLen = 8
-  Alphabet = {"(", ")", "op", "id", "else"}
+  Alphabet = {"(", ")", "op", "else"}
   Dev = {}
   Fuel = 0
   MaxMuts = 0
